@@ -16,6 +16,7 @@ mutual
     anywhere: before and after any amount of in-place caching). -/
 inductive Compiled (σ : Store) : Expr → Code → Prop where
   | const (k : Int) : Compiled σ (.const k) (.const k)
+  | kw (k : String) : Compiled σ (.kw k) (.kw k)
   | var (x : String) : Compiled σ (.var x) (.var x)
   | prim (op : Prim) {a b : Expr} {ca cb : Code} :
       Compiled σ a ca → Compiled σ b cb → Compiled σ (.prim op a b) (.prim op ca cb)
@@ -37,6 +38,7 @@ def Ext (σ σ' : Store) : Prop := ∀ f i, σ.cellOf f = some i → σ'.cellOf 
 mutual
 theorem Compiled.mono {σ σ' : Store} (h : Ext σ σ') : ∀ {e : Expr} {c : Code}, Compiled σ e c → Compiled σ' e c
   | _, _, .const k => .const k
+  | _, _, .kw k => .kw k
   | _, _, .var x => .var x
   | _, _, .prim op ha hb => .prim op (Compiled.mono h ha) (Compiled.mono h hb)
   | _, _, .ite hc ht he => .ite (Compiled.mono h hc) (Compiled.mono h ht) (Compiled.mono h he)
@@ -61,6 +63,7 @@ theorem refOf_ok (σ : Store) (f : String) : RefOK σ (refOf σ f) f := by
 mutual
 theorem embed_compiled (σ : Store) : ∀ e : Expr, Compiled σ e (embed e)
   | .const k => by simp only [embed]; exact .const k
+  | .kw k => by simp only [embed]; exact .kw k
   | .var x => by simp only [embed]; exact .var x
   | .prim op a b => by simp only [embed]; exact .prim op (embed_compiled σ a) (embed_compiled σ b)
   | .ite c t e => by simp only [embed]; exact .ite (embed_compiled σ c) (embed_compiled σ t) (embed_compiled σ e)
@@ -76,6 +79,7 @@ end
 mutual
 theorem resolve_compiled (σ : Store) : ∀ e : Expr, Compiled σ e (resolve σ e)
   | .const k => by simp only [resolve]; exact .const k
+  | .kw k => by simp only [resolve]; exact .kw k
   | .var x => by simp only [resolve]; exact .var x
   | .prim op a b => by simp only [resolve]; exact .prim op (resolve_compiled σ a) (resolve_compiled σ b)
   | .ite c t e => by simp only [resolve]; exact .ite (embed_compiled σ c) (embed_compiled σ t) (embed_compiled σ e)
@@ -92,6 +96,7 @@ mutual
 /-- in-place caching turns a code object for `e` into a code object for `e` -/
 theorem cacheAll_compiled (σ : Store) : ∀ {e : Expr} {c : Code}, Compiled σ e c → Compiled σ e (cacheAll σ c)
   | _, _, .const k => by simp only [cacheAll]; exact .const k
+  | _, _, .kw k => by simp only [cacheAll]; exact .kw k
   | _, _, .var x => by simp only [cacheAll]; exact .var x
   | _, _, .prim op ha hb => by simp only [cacheAll]; exact .prim op (cacheAll_compiled σ ha) (cacheAll_compiled σ hb)
   | _, _, .ite hc ht he => by
@@ -116,6 +121,33 @@ theorem evalList_compiled {σ : Store} {ev₁ : Code → Out} {ev₂ : Expr → 
   | _, _, .cons ha has => by
       simp only [evalList, h _ _ ha, evalList_compiled h has]
 
+/-- the `&aux` init forms of a definition and their code objects -/
+inductive CompiledAux (σ : Store) : List (String × Expr) → List (String × Code) → Prop where
+  | nil : CompiledAux σ [] []
+  | cons (x : String) {a : Expr} {c : Code} {as : List (String × Expr)} {cs : List (String × Code)} :
+      Compiled σ a c → CompiledAux σ as cs → CompiledAux σ ((x, a) :: as) ((x, c) :: cs)
+
+theorem CompiledAux.mono {σ σ' : Store} (h : Ext σ σ') {as : List (String × Expr)} {cs : List (String × Code)}
+    (ha : CompiledAux σ as cs) : CompiledAux σ' as cs := by
+  induction ha with
+  | nil => exact .nil
+  | cons x hc _ ih => exact .cons x (hc.mono h) ih
+
+theorem embedAux_compiled (σ : Store) : ∀ as : List (String × Expr), CompiledAux σ as (embedAux as)
+  | [] => by simp only [embedAux]; exact .nil
+  | (x, a) :: rest => by simp only [embedAux]; exact .cons x (embed_compiled σ a) (embedAux_compiled σ rest)
+
+theorem evalAux_compiled {σ : Store} {ev₁ : Env → Code → Out} {ev₂ : Env → Expr → Out}
+    (h : ∀ env e c, Compiled σ e c → ev₁ env c = ev₂ env e)
+    {as : List (String × Expr)} {cs : List (String × Code)} (ha : CompiledAux σ as cs) :
+    ∀ env : Env, evalAux ev₁ env cs = evalAux ev₂ env as := by
+  induction ha with
+  | nil => intro env; simp [evalAux]
+  | cons x hc _ ih =>
+    intro env
+    simp only [evalAux, h env _ _ hc]
+    split <;> first | rfl | exact ih _
+
 /-! ## the invariant between the function table and the store -/
 
 structure WF (σ : Store) : Prop where
@@ -126,7 +158,8 @@ structure WF (σ : Store) : Prop where
     the placeholder when `f` is undefined -/
 def CellMatches (σ : Store) (Φ : FunTable) (f : String) (i : Nat) : Prop :=
   match Φ.lookup f with
-  | some lam => ∃ cb, σ.cells[i]? = some (some ⟨lam.params, cb⟩) ∧ Compiled σ lam.body cb
+  | some lam => ∃ caux cb, σ.cells[i]? = some (some ⟨lam.sig, caux, cb⟩) ∧
+      CompiledAux σ lam.aux caux ∧ Compiled σ lam.body cb
   | none => σ.cells[i]? = some none
 
 structure Rel (Φ : FunTable) (σ : Store) : Prop where
@@ -147,6 +180,7 @@ theorem evalCode_eq_eval {Φ : FunTable} {σ : Store} (hrel : Rel Φ σ) :
     intro env e c hc
     cases hc with
     | const k => simp [evalCode, eval]
+    | kw k => simp [evalCode, eval]
     | var x => simp [evalCode, eval]
     | prim op ha hb => simp only [evalCode, eval, ih env ha, ih env hb]
     | ite hc ht he => simp only [evalCode, eval, ih env hc, ih env ht, ih env he]
@@ -186,13 +220,19 @@ theorem evalCode_eq_eval {Φ : FunTable} {σ : Store} (hrel : Rel Φ σ) :
           simp [hm]
         | some lam =>
           rw [hΦ] at hm
-          obtain ⟨cb, hcb, hcomp⟩ := hm
+          obtain ⟨caux, cb, hcb, haux, hcomp⟩ := hm
+          have haux' : ∀ env₀ : Env, evalAux (fun env' a => evalCode σ n env' a) env₀ caux
+              = evalAux (fun env' a => eval Φ n env' a) env₀ lam.aux :=
+            evalAux_compiled (fun env' e c h => ih env' h) haux
           simp only [hcb, hargs']
           split
           · rfl
           · split
-            · exact ih _ hcomp
             · rfl
+            · simp only [haux']
+              split
+              · rfl
+              · exact ih _ hcomp
 
 /-! ## `declare`, `compile`, `define` preserve the invariant -/
 
@@ -283,8 +323,8 @@ theorem declare_rel {Φ : FunTable} {σ : Store} (hrel : Rel Φ σ) (f : String)
         | none => rw [hl] at hm; exact hm
         | some lam =>
           rw [hl] at hm
-          obtain ⟨cb, h₁, h₂⟩ := hm
-          exact ⟨cb, h₁, h₂.mono hext⟩
+          obtain ⟨caux, cb, h₁, h₂, h₃⟩ := hm
+          exact ⟨caux, cb, h₁, h₂.mono hext, h₃.mono hext⟩
 
 theorem declareAll_ext (σ : Store) (fs : List String) : Ext σ (declareAll σ fs) := by
   induction fs generalizing σ with
@@ -309,21 +349,22 @@ theorem compile_compiled (σ : Store) (e : Expr) : Compiled (compile σ e).2 e (
 
 /-- the patch of `Package.DefLambda`: overwrite the cell of `f` -/
 theorem patch_rel {Φ : FunTable} {σ : Store} (hrel : Rel Φ σ) {f : String} {i : Nat}
-    (hf : σ.cellOf f = some i) {ps : List String} {b : Expr} {cb : Code} (hcb : Compiled σ b cb) :
-    Rel ((f, ⟨ps, b⟩) :: Φ) ⟨σ.names, σ.cells.set i (some ⟨ps, cb⟩)⟩ := by
-  have hext : Ext σ ⟨σ.names, σ.cells.set i (some ⟨ps, cb⟩)⟩ := fun _ _ h => h
+    (hf : σ.cellOf f = some i) {lam : Lam} {caux : List (String × Code)} {cb : Code}
+    (haux : CompiledAux σ lam.aux caux) (hcb : Compiled σ lam.body cb) :
+    Rel ((f, lam) :: Φ) ⟨σ.names, σ.cells.set i (some ⟨lam.sig, caux, cb⟩)⟩ := by
+  have hext : Ext σ ⟨σ.names, σ.cells.set i (some ⟨lam.sig, caux, cb⟩)⟩ := fun _ _ h => h
   have hi := hrel.wf.bound f i hf
   refine ⟨⟨?_, ?_⟩, ?_, ?_⟩
   · intro g j hg
     have := hrel.wf.bound g j hg
     simpa using this
   · exact hrel.wf.inj
-  · intro g lam hl
+  · intro g lam' hl
     by_cases hgf : g = f
     · subst hgf; exact ⟨i, hf⟩
     · have : (g == f) = false := by simpa using hgf
       simp only [List.lookup, this] at hl
-      exact hrel.defined g lam hl
+      exact hrel.defined g lam' hl
   · intro g j hg
     change σ.cellOf g = some j at hg
     unfold CellMatches
@@ -331,7 +372,7 @@ theorem patch_rel {Φ : FunTable} {σ : Store} (hrel : Rel Φ σ) {f : String} {
     · subst hgf
       rw [hf] at hg; cases hg
       simp only [List.lookup, beq_self_eq_true]
-      exact ⟨cb, by simp [hi], hcb.mono hext⟩
+      exact ⟨caux, cb, by simp [hi], haux.mono hext, hcb.mono hext⟩
     · have hne : (g == f) = false := by simpa using hgf
       have hji : i ≠ j := fun hij => hgf (hrel.wf.inj g f j hg (hij ▸ hf))
       simp only [List.lookup, hne]
@@ -340,32 +381,112 @@ theorem patch_rel {Φ : FunTable} {σ : Store} (hrel : Rel Φ σ) {f : String} {
       simp only [List.getElem?_set_ne hji]
       cases hl : Φ.lookup g with
       | none => rw [hl] at hm; exact hm
-      | some lam =>
+      | some lam' =>
         rw [hl] at hm
-        obtain ⟨cb', h₁, h₂⟩ := hm
-        exact ⟨cb', h₁, h₂.mono hext⟩
+        obtain ⟨caux', cb', h₁, h₂, h₃⟩ := hm
+        exact ⟨caux', cb', h₁, h₂.mono hext, h₃.mono hext⟩
 
-theorem define_ext (σ : Store) (f : String) (ps : List String) (b : Expr) : Ext σ (define σ f ps b) := by
-  have h₁ : Ext σ (declare (compile σ b).2 f) := (compile_ext σ b).trans (declare_ext _ f)
+theorem define_ext (σ : Store) (f : String) (lam : Lam) : Ext σ (define σ f lam) := by
+  have h₁ : Ext σ (declare (compile σ lam.body).2 f) := (compile_ext σ lam.body).trans (declare_ext _ f)
   unfold define
   simp only
   split
   · exact h₁
   · exact h₁
 
-/-- `defun` re-establishes the invariant for the table in which `f` has its new body -/
-theorem define_rel {Φ : FunTable} {σ : Store} (hrel : Rel Φ σ) (f : String) (ps : List String) (b : Expr) :
-    Rel ((f, ⟨ps, b⟩) :: Φ) (define σ f ps b) := by
-  have hr₂ : Rel Φ (declare (compile σ b).2 f) := declare_rel (compile_rel hrel b) f
-  have hc₂ : Compiled (declare (compile σ b).2 f) b (compile σ b).1 :=
-    (compile_compiled σ b).mono (declare_ext _ f)
-  obtain ⟨i, hi⟩ := cellOf_declare_self (compile σ b).2 f
+/-- `defun` re-establishes the invariant for the table in which `f` has its new definition -/
+theorem define_rel {Φ : FunTable} {σ : Store} (hrel : Rel Φ σ) (f : String) (lam : Lam) :
+    Rel ((f, lam) :: Φ) (define σ f lam) := by
+  have hr₂ : Rel Φ (declare (compile σ lam.body).2 f) := declare_rel (compile_rel hrel lam.body) f
+  have hc₂ : Compiled (declare (compile σ lam.body).2 f) lam.body (compile σ lam.body).1 :=
+    (compile_compiled σ lam.body).mono (declare_ext _ f)
+  obtain ⟨i, hi⟩ := cellOf_declare_self (compile σ lam.body).2 f
   unfold define
   simp only
   split
   · next j hj =>
-    exact patch_rel hr₂ hj hc₂
+    exact patch_rel hr₂ hj (embedAux_compiled _ lam.aux) hc₂
   · next hnone => rw [hnone] at hi; cases hi
+
+/-! ### `fmakunbound` -/
+
+theorem lookup_undefTable (Φ : FunTable) (f g : String) :
+    (undefTable Φ f).lookup g = if g = f then none else Φ.lookup g := by
+  unfold undefTable
+  induction Φ with
+  | nil => simp [List.lookup]
+  | cons p Φ ih =>
+    obtain ⟨k, v⟩ := p
+    by_cases hkf : k = f
+    · subst hkf
+      by_cases hgk : g = k
+      · subst hgk; simpa using ih
+      · have : (g == k) = false := by simpa using hgk
+        simp only [List.filter_cons, bne_self_eq_false, Bool.false_eq_true, if_false, ih, List.lookup_cons, this]
+    · have hne : (k != f) = true := by simpa using hkf
+      simp only [List.filter_cons, hne, if_true, List.lookup_cons, ih]
+      by_cases hgk : g = k
+      · subst hgk; simp [hkf]
+      · have : (g == k) = false := by simpa using hgk
+        simp [this]
+
+theorem undefine_ext (σ : Store) (f : String) : Ext σ (undefine σ f) := by
+  unfold undefine
+  split
+  · exact fun _ _ h => h
+  · exact Ext.refl σ
+
+/-- `fmakunbound` re-establishes the invariant for the table without `f`: the cell of `f` is a
+    placeholder again, every other cell is untouched -/
+theorem undefine_rel {Φ : FunTable} {σ : Store} (hrel : Rel Φ σ) (f : String) :
+    Rel (undefTable Φ f) (undefine σ f) := by
+  unfold undefine
+  split
+  · next i hf =>
+    have hext : Ext σ ⟨σ.names, σ.cells.set i none⟩ := fun _ _ h => h
+    have hi := hrel.wf.bound f i hf
+    refine ⟨⟨?_, ?_⟩, ?_, ?_⟩
+    · intro g j hg
+      have := hrel.wf.bound g j hg
+      simpa using this
+    · exact hrel.wf.inj
+    · intro g lam hl
+      rw [lookup_undefTable] at hl
+      split at hl
+      · cases hl
+      · exact hrel.defined g lam hl
+    · intro g j hg
+      change σ.cellOf g = some j at hg
+      unfold CellMatches
+      rw [lookup_undefTable]
+      by_cases hgf : g = f
+      · subst hgf
+        rw [hf] at hg; cases hg
+        simp [hi]
+      · have hji : i ≠ j := fun hij => hgf (hrel.wf.inj g f j hg (hij ▸ hf))
+        simp only [hgf, if_false, List.getElem?_set_ne hji]
+        have hm := hrel.cells g j hg
+        unfold CellMatches at hm
+        cases hl : Φ.lookup g with
+        | none => rw [hl] at hm; exact hm
+        | some lam' =>
+          rw [hl] at hm
+          obtain ⟨caux', cb', h₁, h₂, h₃⟩ := hm
+          exact ⟨caux', cb', h₁, h₂.mono hext, h₃.mono hext⟩
+  · next hnone =>
+    -- the name never had a cell: it is undefined in the table as well
+    refine ⟨hrel.wf, ?_, ?_⟩
+    · intro g lam hl
+      rw [lookup_undefTable] at hl
+      split at hl
+      · cases hl
+      · exact hrel.defined g lam hl
+    · intro g j hg
+      have hgf : g ≠ f := fun h => by subst h; rw [hnone] at hg; cases hg
+      have hm := hrel.cells g j hg
+      unfold CellMatches at hm ⊢
+      rw [lookup_undefTable]
+      simpa [hgf] using hm
 
 /-! ## lists of code objects kept by the top-level loop -/
 
@@ -411,11 +532,16 @@ theorem run_congr (fuel : Nat) : ∀ {Φ Φ' : FunTable}, (∀ f, Φ.lookup f = 
   | nil => simp [run]
   | cons form rest ih =>
     cases form with
-    | defun f ps b =>
+    | defun f lam =>
       simp only [run]
-      rw [ih (Φ := (f, ⟨ps, b⟩) :: Φ) (Φ' := (f, ⟨ps, b⟩) :: Φ')]
+      rw [ih (Φ := (f, lam) :: Φ) (Φ' := (f, lam) :: Φ')]
       intro g
       simp only [List.lookup_cons, h g]
+    | undef f =>
+      simp only [run]
+      rw [ih (Φ := undefTable Φ f) (Φ' := undefTable Φ' f)]
+      intro g
+      simp only [lookup_undefTable, h g]
     | expr e => simp only [run, eval_congr h, ih h]
     | again j => simp only [run, eval_congr h, ih h]
 
@@ -423,7 +549,7 @@ theorem run_congr (fuel : Nat) : ∀ {Φ Φ' : FunTable}, (∀ f, Φ.lookup f = 
 def addDefs (Φ₀ : FunTable) (defs : List (String × Lam)) : FunTable := defs.reverse ++ Φ₀
 
 theorem run_defs_aux (fuel : Nat) (toForm : String × Lam → Form)
-    (htf : ∀ d, toForm d = .defun d.1 d.2.params d.2.body) :
+    (htf : ∀ d, toForm d = .defun d.1 d.2) :
     ∀ (defs : List (String × Lam)) (Φ₀ : FunTable) (hist : List Expr) (body : List Form),
     run fuel Φ₀ hist (defs.map toForm ++ body)
       = defs.map (fun d => Out.val (.sym d.1)) ++ run fuel (addDefs Φ₀ defs) hist body := by
